@@ -232,6 +232,9 @@ def literal_outcomes(body, classify):
     return out
 
 
+UNK_ARG = ("unk",)
+
+
 def eval_text_reader(body, text, classify, numeric_ok=None):
     """Abstract run of a hand-written text decoder on the concrete input `text`: literal tests (== / != "lit", is_empty, starts_with)
     take the edge the input selects, `str::parse::<int>` succeeds iff the input is a decimal number, the initial
@@ -395,6 +398,15 @@ def writer_guards(run, tb, pushed):
         run.ob("ReadOptions|empty-result-only-when-empty", not others, tb.sp, "the empty string is returned only when nothing was collected", reason="options-dropped-on-the-wire")
 
 
+def _flatten_value(v):
+    out = [v]
+    if isinstance(v, tuple):
+        for x in v:
+            if isinstance(x, tuple):
+                out += _flatten_value(x)
+    return out
+
+
 def r2(run):
     fields = fields_const(run, "xs::store::_::<impl serde::de::Deserialize<'de> for xs::store::ReadOptions>")
     tb = run.facts.body("xs::store::ReadOptions::to_query_string")
@@ -445,30 +457,32 @@ def r2(run):
                 w_lits.add(y[1]["str"])
             if y[0] == "call" and y[1].fn in DUR_UNITS:
                 w_units.add(DUR_UNITS[y[1].fn])
-    run.ob("ReadOptions|follow-literal", bool(w_lits) and w_lits <= on_lits and not (w_lits & off_lits), tb.sp,
-           "the follow literal written (%s) is one the reader maps to On (%s) and not to Off (%s)" % (sorted(w_lits), sorted(on_lits), sorted(off_lits)), reason="option-literal-mismatch")
-    # concrete decoding of what the writer emits, and of the documented spellings
-    def cls_follow(blk):
-        if blk in built:
-            return built[blk]
-        for (rb2, e, raw) in fd.return_defs():
-            x = strip(e)
-            if rb2 == blk and x[0] == "agg" and x[1].get("variant") == "Err":
-                return "Err"
-        return None
+    from . import textdec as _td
+    lit_out = {l: _td.decode(run.facts, fd, l, args=[("unk",)])[0] for l in sorted(w_lits)}
+    run.ob("ReadOptions|follow-literal", bool(w_lits) and all(v == {"On"} for v in lit_out.values()), tb.sp,
+           "the follow literal written (%s) is one the reader maps to On: %s" % (sorted(w_lits), {k: sorted(map(str, v)) for k, v in lit_out.items()}), reason="option-literal-mismatch")
+    # decision table of the reader for what the writer emits and for the documented spellings
+    from . import textdec
     tested = set()
-    for bb, si in fd.switches():
-        if si["kind"] == "bool":
-            tested |= set(q.const_strs(si["cond"]))
-            c0 = strip(si["cond"])
-            if c0[0] == "call" and c0[1].fn.endswith("::is_empty"):
-                tested.add("")
-    samples = [(l, "On") for l in sorted(w_lits)] + [("30000", "WithHeartbeat"), ("\u0001not-a-follow-value", "Err")]
+    for b2 in [fd] + [run.facts.body(c.fn) for c in fd.calls() if c.local and run.facts.body(c.fn) is not None]:
+        for bb, si in b2.switches():
+            if si["kind"] == "bool":
+                tested |= set(q.const_strs(si["cond"]))
+                c0 = strip(si["cond"])
+                if c0[0] == "call" and c0[1].fn.endswith("::is_empty"):
+                    tested.add("")
+    samples = [(l, "On") for l in sorted(w_lits)] + [("30000", "WithHeartbeat"), ("0", "WithHeartbeat"), ("1", "WithHeartbeat"), ("\u0001not-a-follow-value", "Err")]
     samples += [(l, "On") for l in ("", "yes", "true") if l in tested] + [(l, "Off") for l in ("false", "no") if l in tested]
+    done = set()
     for text, want in samples:
-        got, unknown = eval_text_reader(fd, text, cls_follow)
-        run.ob("FollowOption|decode|%r" % text[:12], got == {want} and not unknown, fd.sp,
-               "follow=%r decodes to %s (got %s%s)" % (text[:12], want, sorted(got), "; uninterpreted tests: %s" % unknown if unknown else ""), reason="option-literal-mismatch")
+        if text in done:
+            continue
+        done.add(text)
+        got, unknown = textdec.decode(run.facts, fd, text, args=[UNK_ARG])
+        kind = "number" if text.isdigit() else "spelling"
+        run.ob("FollowOption|decode|%r" % text[:12], got == {want}, fd.sp,
+               "follow=%r (%s) decodes to %s (got %s%s)" % (text[:12], "what the writer emits for a heartbeat of that many ms" if kind == "number" else kind, want, sorted(map(str, got)),
+                                                      "; uninterpreted tests: %s" % unknown[:2] if unknown and got != {want} else ""), reason="option-literal-mismatch")
     # an absent `follow` means Off
     dflt = None
     for b in run.facts.all_bodies():
@@ -478,7 +492,16 @@ def r2(run):
                 if x[0] == "agg":
                     dflt = x[1].get("variant")
     run.ob("FollowOption|default", dflt == "Off", fd.sp, "an absent `follow` parameter decodes to Off (Default = %s): what the writer omits for Off" % dflt, reason="option-literal-mismatch")
-    run.ob("ReadOptions|heartbeat-unit", w_units == {"ms"} and hb_units == {"ms"}, tb.sp, "heartbeat interval: writer %s, reader %s" % (sorted(w_units), sorted(hb_units)),
+    tdv = _td.TextDecoder(run.facts, "30000")
+    hb_units = set()
+    for v in tdv.run(fd, [("unk",)]):
+        for y in _flatten_value(v):
+            if y[0] == "adt" and y[1] == "Duration":
+                hb_units.add(y[2])
+                hb_units |= ({"value-kept"} if y[3] and y[3][0] == ("int", 30000) else {"value-changed"})
+    hb_ok = hb_units == {"ms", "value-kept"}
+    hb_units -= {"value-kept"}
+    run.ob("ReadOptions|heartbeat-unit", w_units == {"ms"} and hb_ok, tb.sp, "heartbeat interval: writer %s, reader %s" % (sorted(w_units), sorted(hb_units)),
            reason="option-unit-mismatch")
     # tail literal must not be in the bool reader's false set
     db = run.facts.body("xs::store::deserialize_bool")
@@ -497,17 +520,22 @@ def r2(run):
     for (v, c) in pushed.get("tail", []):
         t_lits |= set(q.const_strs(v))
     if db is not None:
-        def cls_bool(blk):
-            return rets.get(blk)
+        from . import textdec
+        helper_lits = set()
+        for b2 in [run.facts.body(c.fn) for c in db.calls() if c.local and run.facts.body(c.fn) is not None]:
+            for bb, si in b2.switches():
+                if si["kind"] == "bool":
+                    helper_lits |= set(q.const_strs(si["cond"]))
         for text in sorted(t_lits):
-            got, unknown = eval_text_reader(db, text, cls_bool)
-            run.ob("ReadOptions|tail-decode|%r" % text, got == {True} and not unknown, db.sp, "tail=%r (what the writer emits) decodes to true (got %s)" % (text, sorted(got)),
+            got, unknown = textdec.decode(run.facts, db, text, args=[UNK_ARG])
+            run.ob("ReadOptions|tail-decode|%r" % text, got == {True}, db.sp, "tail=%r (what the writer emits) decodes to true (got %s)" % (text, sorted(map(str, got))),
                    reason="option-literal-mismatch")
-        for text in sorted(false_set):
-            got, unknown = eval_text_reader(db, text, cls_bool)
-            run.ob("ReadOptions|tail-decode|%r" % text, got == {False} and not unknown, db.sp, "tail=%r decodes to false (got %s)" % (text, sorted(got)), reason="option-literal-mismatch")
-    run.ob("ReadOptions|tail-literal", bool(t_lits) and bool(false_set) and not (t_lits & false_set), tb.sp,
-           "the tail literal written (%s) is not in the reader's false set (%s)" % (sorted(t_lits), sorted(false_set)), reason="option-literal-mismatch")
+        for text in sorted((false_set | (helper_lits & {"false", "no", "0"}))):
+            got, unknown = textdec.decode(run.facts, db, text, args=[UNK_ARG])
+            run.ob("ReadOptions|tail-decode|%r" % text, got == {False}, db.sp, "tail=%r decodes to false (got %s)" % (text, sorted(map(str, got))), reason="option-literal-mismatch")
+    neg = {l: _td.decode(run.facts, db, l, args=[("unk",)])[0] for l in ("false", "no", "0")} if db is not None else {}
+    run.ob("ReadOptions|tail-literal", bool(t_lits) and any(v == {False} for v in neg.values()) and not [l for l in t_lits if neg.get(l) == {False}], tb.sp,
+           "the tail literal written (%s) is not one of the reader's false spellings (%s)" % (sorted(t_lits), sorted(l for l, v in neg.items() if v == {False})), reason="option-literal-mismatch")
     # tail is only written when true; Off follow writes nothing
     for k in ("last-id", "limit", "context-id"):
         for (v, c) in pushed.get(k, []):
